@@ -943,6 +943,21 @@ pub fn c12(r: &mut Rng, sz: &Sizes, out: &mut Vec<String>) {
         out.push(format!("ticks_infer\t{}", hex_doc(&d, r.below(4))));
         out.push(format!("ticks_inferv\t{}", hex_doc(&d, 0)));
     }
+    // a member name repeated at every level (equal shapes: accepted; a conflict at the innermost level: rejected):
+    // a second conversion of the members doubles the work per level
+    for k in 1..=16 {
+        let mut plain = String::from("1");
+        let mut dup = String::from("1");
+        let mut bad = String::from("{\"a\":1,\"a\":true}");
+        for _ in 0..k {
+            dup = format!("{{\"a\":{dup},\"a\":{plain}}}");
+            plain = format!("{{\"a\":{plain}}}");
+            bad = format!("{{\"a\":{bad}}}");
+        }
+        out.push(format!("ticks_infer\t{}", crate::wire::hex(dup.as_bytes())));
+        out.push(format!("ticks_infer\t{}", crate::wire::hex(bad.as_bytes())));
+        out.push(format!("ticks_infer\t{}", crate::wire::hex(format!("[{dup},{dup}]").as_bytes())));
+    }
     // deep nesting: the D10 witness family
     for k in 1..=24 {
         let mut t = String::from("1");
@@ -1169,6 +1184,18 @@ pub fn text_corpus(r: &mut Rng, sz: &Sizes, thorough: bool) -> Vec<String> {
         texts.push(format!("[{w}]"));
         texts.push(format!("{{\"a\":{w}}}"));
         texts.push(format!("{{{q}:{q},\"k\":[{q}]}}"));
+    }
+    // characters that are neither JSON whitespace nor part of any lexeme (byte order mark, no-break and zero-width
+    // spaces, line/paragraph separators, NEL, vertical tab, form feed, DEL, a C1 control) before, after and between
+    // the tokens of small documents with and without member names
+    for c in ['\u{feff}', '\u{a0}', '\u{200b}', '\u{2028}', '\u{2029}', '\u{85}', '\u{b}', '\u{c}', '\u{7f}', '\u{9b}', '\u{1f}', '\u{fffe}'] {
+        for d in ["{\"a\": 1}", "[{\"a\":1}]", "x", " ", "[1, 2]", "{}", "tru", "\"s\"", "{\"\u{e9}\":[1,\"x\"]}", "", "1"] {
+            texts.push(format!("{c}{d}"));
+            texts.push(format!("{d}{c}"));
+            texts.push(format!("{c}{c}{d}"));
+            texts.push(d.replace(' ', &c.to_string()).replace(':', &format!(":{c}")));
+            texts.push(d.replacen('"', &format!("{c}\""), 1));
+        }
     }
     for n in crate::dict::sizes(2000) {
         texts.push(format!("\"{}\"", "s".repeat(n)));
@@ -1597,6 +1624,30 @@ fn source_sets(r: &mut Rng, n: usize) -> Vec<Vec<String>> {
         vec!["{\"entry\":[1,[\"a\",{\"k\":true}]]}".to_string()],
         vec!["{\"a\":[[{\"k\":1}],[{\"k\":2}]],\"t\":[1,[[{\"m\":\"x\"}]]]}".to_string()],
     ];
+    // sibling members of one layout whose values differ only in an INNER optional position (a tuple slot, an array
+    // element, a nested member that is null in one sibling): their types must not share a name
+    for (x, xn) in [
+        ("[1,\"a\"]", "[null,\"a\"]"), ("{\"k\":1}", "{\"k\":null}"), ("[[1,\"a\"]]", "[[null,\"a\"]]"), ("[{\"k\":1}]", "[{\"k\":null}]"),
+        ("[1,[2,\"b\"]]", "[1,[null,\"b\"]]"), ("{\"t\":[1,\"a\"]}", "{\"t\":[null,\"a\"]}"),
+    ] {
+        out.push(vec![format!("{{\"p\":{x},\"q\":{x}}}"), format!("{{\"p\":{x},\"q\":{xn}}}")]);
+        out.push(vec![format!("{{\"p\":{x},\"q\":{x}}}"), format!("{{\"p\":{xn},\"q\":{x}}}")]);
+        out.push(vec![format!("{{\"p\":{x},\"q\":{x}}}"), format!("{{\"p\":{x},\"q\":{xn}}}"), "{\"p\":4,\"q\":5}".to_string()]);
+        out.push(vec![format!("{{\"p\":{{\"m\":{x}}},\"q\":{{\"m\":{x}}}}}"), format!("{{\"p\":{{\"m\":{x}}},\"q\":{{\"m\":{xn}}}}}")]);
+    }
+    // tuples that only REGROUP the same leaves, as variants of one OneOf (a scalar first, so that the OneOf exists)
+    {
+        let groupings = [
+            "[1,\"x\",true,null]", "[[1,\"x\"],true,null]", "[[1,\"x\",true],null]", "[1,[\"x\",true],null]", "[1,\"x\",[true,null]]",
+            "[[1,\"x\"],[true,null]]", "[[[1,\"x\"],true],null]",
+        ];
+        for (i, a) in groupings.iter().enumerate() {
+            for b in groupings.iter().skip(i + 1) {
+                out.push(vec!["12".to_string(), a.to_string(), b.to_string()]);
+                out.push(vec!["{\"payload\":\"none\"}".to_string(), format!("{{\"payload\":{a}}}"), format!("{{\"payload\":{b}}}")]);
+            }
+        }
+    }
     // numbers of every lexical kind under member names of every flavour (an `id` is still just a Number), in
     // arrays and tuples too: the generated field type has to read all of them
     let nums = ["0", "-0", "-7", "2.5", "1e3", "2E-2", "-1.5e-3", "18446744073709551615", "1234567890123456789012345", "0.1", "9007199254740993"];
@@ -1815,7 +1866,7 @@ pub fn c16(r: &mut Rng, sz: &Sizes, out: &mut Vec<String>) {
             out.push(format!("p_c16h\t{mode}\t{}\t!steps *", h.join("\t")));
         }
         // every value of OUT_DIR: trailing slash, unusual directory name, relative, unset
-        let variant = ["pre-slash", "lazy-space", "pre-relative", "lazy-unset"][i % 4];
+        let variant = ["pre-slash", "lazy-space", "pre-relative", "lazy-unset", "pre-nonutf8"][i % 5];
         out.push(format!("p_c16h\t{variant}\t{}\t!steps *", h.join("\t")));
     }
 }
